@@ -2407,7 +2407,7 @@ class Molecule(UnitsManaged, Saveable, OpenSystem):
                 print("..done")
         
         pop_tol = ptol
-        dip_tol = numpy.sqrt(self.D2_max)*dtol
+        dip_tol = self.D2_max*dtol
         evf_tol = etol
                         
         if eUt is None:
